@@ -360,3 +360,62 @@ def seq_eq_structural(it, a, b):
         else:
             return None
     return True
+
+
+def split_spec(it, spec):
+    """spec: SeqV str of the shape  <literal flags><numeral width><literal type>  ->  (prefix, width Lin, suffix) | None"""
+    if not isinstance(spec, SeqV) or spec.kind != 'str':
+        return None
+    pre, width, suf = '', None, ''
+    for g in spec.segs:
+        if isinstance(g, Lit):
+            if width is None:
+                pre += g.data
+            else:
+                suf += g.data
+        elif isinstance(g, Num) and width is None and g.base == 10 and g.minw <= 1 and g.val is not None:
+            width = g.val
+        else:
+            return None
+    if width is None:
+        return None
+    if any(ch.isdigit() and ch != '0' for ch in pre) or any(ch.isdigit() for ch in suf):
+        return None
+    return pre, width, suf
+
+
+def format_value_symw(it, val, pre, width, suf, node=None):
+    """format(val, pre + str(width) + suf) with a symbolic non-negative width."""
+    d = parse_spec(pre + suf)
+    if d is None or d['width'] or not it.store.prove_ge0(width):
+        it.note_unknown(node, f'format spec {pre!r}+width+{suf!r}')
+        return opaque_fresh(it, 'str', 'format(symbolic width)', deps=(val,), tags=value_tags(val))
+    if isinstance(val, IntV):
+        t = d['type'] or 'd'
+        base = {'d': 10, 'x': 16, 'X': 16, 'b': 2, 'o': 8}.get(t)
+        fill, align = d['fill'], d['align']
+        if d['zero'] and not align:
+            fill, align = '0', '='
+        if base is None or d['sign'] or d['alt'] or d['grp'] or d['prec'] is not None or align not in (None, '>', '='):
+            it.note_unknown(node, 'int format with symbolic width')
+            return opaque_fresh(it, 'str', 'format(int, symbolic width)', deps=(val,))
+        num = numeral(it, val.lin, base, 0, '0', upper=(t == 'X'))
+        out = pad(it, num, width, '>', fill or ' ')
+        out.numeric = (val, base, fill or ' ')
+        return out.with_tags(val.tags)
+    if isinstance(val, SeqV) and val.kind == 'str':
+        if d['type'] not in (None, 's') or d['sign'] or d['alt'] or d['grp']:
+            it.note_unknown(node, 'str format with symbolic width')
+            return opaque_fresh(it, 'str', 'format(str, symbolic width)', deps=(val,))
+        out = val
+        if d['prec'] is not None:
+            out = slice_seq(it, out, Lin.const(0), Lin.const(d['prec']))
+        fill, align = d['fill'], d['align']
+        if d['zero'] and not align:
+            fill, align = '0', '<'
+        return pad(it, out, width, align or '<', fill or ' ')
+    # decimal / datetime / opaque objects: at least `width` characters
+    sym = it.fresh('len<format>')
+    it.store.declare(sym, 0, None)
+    it.store.assume_ge0(Lin.sym(sym) - width)
+    return SeqV('str', (Opq(Lin.sym(sym), f'format({val!r},{pre}w{suf})', (val,)),), value_tags(val))
